@@ -147,7 +147,8 @@ def render(spec: Spec, vals: Optional[dict] = None, defaults: Optional[dict] = N
     v.update(vals or {})
     out: list[str] = []
     res = {3600: "60min", 1800: "30min", 900: "15min", 300: "5min", 60: "1min"}[spec.resolution]
-    out.append(f'project prj "Prj" {spec.start.strftime("%Y-%m-%d")} +{spec.length} {{')
+    st = spec.start.strftime("%Y-%m-%d") + (spec.start.strftime("-%H:%M") if (spec.start.hour or spec.start.minute) else "")
+    out.append(f'project prj "Prj" {st} +{spec.length} {{')
     out.append(f'  timezone "{spec.tz}"')
     if spec.resolution != 3600:
         out.append(f"  timingresolution {res}")
